@@ -312,10 +312,13 @@ fn arb_cell(tame: bool) -> BoxedStrategy<Option<GVal>> {
         ]
     });
     let nested_only = nested.prop_filter_map("collection", |v| if matches!(v, GVal::Arr(_) | GVal::Obj(_)) { Some(v) } else { None });
+    // a cell larger than any plausible output buffer (4 KiB, 8 KiB)
+    let big = (4100usize..9500, prop::sample::select(vec!["x", "ab", "q\"", "y,"])).prop_map(|(n, u)| Some(GVal::Str(u.repeat(n / u.len()))));
     prop_oneof![
-        3 => Just(None),
-        12 => leaf.prop_map(Some),
-        4 => nested_only.prop_map(Some),
+        6 => Just(None),
+        24 => leaf.prop_map(Some),
+        8 => nested_only.prop_map(Some),
+        1 => big,
     ]
     .boxed()
 }
@@ -468,6 +471,7 @@ impl Check for C15Csv {
                 .class_if(absent, "absent_value")
                 .class_if(nested, "nested_value")
                 .class_if(case.rowsep == "\r\n", "crlf_rows")
+                .class_if(case.rows.iter().flatten().any(|c| matches!(c, Some(GVal::Str(s)) if s.len() > 4000)), "cell_larger_than_4KiB")
                 .class_if(case.rows.iter().any(|r| r.last().map(|c| c.is_none()).unwrap_or(false)), "absent_last_field")
                 .class_if(case.names.iter().any(|n| n.contains(',') || n.contains('"')), "name_needs_quoting")
                 .class_if({ let mut v = case.names.clone(); v.sort(); v.windows(2).any(|w| w[0] == w[1]) }, "duplicate_selection_name")
